@@ -34,7 +34,7 @@ def specSpfIdentity (mailFrom helo : Str) : Str := if mailFrom = [] then helo el
 /-- "a passing DKIM signature or the passing SPF identity is aligned with the From-header domain" -/
 def hasAlignedPass (T : DomainTheory) (r : Record) (fromD : Str) (results : List AuthRes) : Bool :=
   results.any fun
-    | .dkim v d => v == .pass && specAligned T r.adkim fromD d
+    | .dkim v d _ => v == .pass && specAligned T r.adkim fromD d
     | .spf v f h => v == .pass && specAligned T r.aspf fromD (specSpfIdentity f h)
     | .other => false
 
@@ -42,13 +42,13 @@ def hasAlignedPass (T : DomainTheory) (r : Record) (fromD : Str) (results : List
 error whose identifier is aligned (it would make the message pass if it were a pass). -/
 def hasAlignedTempError (T : DomainTheory) (r : Record) (fromD : Str) (results : List AuthRes) : Bool :=
   results.any fun
-    | .dkim v d => v == .temperror && specAligned T r.adkim fromD d
+    | .dkim v d _ => v == .temperror && specAligned T r.adkim fromD d
     | .spf v f h => v == .temperror && specAligned T r.aspf fromD (specSpfIdentity f h)
     | .other => false
 
 /-- "both SPF and DKIM have been evaluated" -/
 def bothEvaluated (results : List AuthRes) : Bool :=
-  (results.any fun | .dkim _ _ => true | _ => false) &&
+  (results.any fun | .dkim _ _ _ => true | _ => false) &&
   (results.any fun | .spf v _ _ => v != .empty | _ => false)
 
 /-! ## Author (property: "a header with no or several author addresses never obtains a pass") -/
